@@ -80,6 +80,20 @@ func outcomeOfEvent(h *ssa.Function, ev ssa.Instruction) *eventOutcome {
 	return nil
 }
 
+// wonCASGuard: among the conditions in force at instruction i there is "CompareAndSwap(&x.f, 0→1) succeeded" for field f
+// — directly, or through a boolean helper every true-return of which implies it (markClosed() { return CAS(…) }).
+func wonCASGuard(p *Prog, i ssa.Instruction, f *types.Var) bool {
+	atoms, _ := expandBoolCalls(p, AtomsAt(i))
+	for _, at := range atoms {
+		if at.Kind == "call" && at.Pol && at.Call != nil && calleeName(&at.Call.Call) == "sync/atomic.CompareAndSwapUint32" && len(at.Call.Call.Args) > 0 {
+			if fv, _ := fieldVar(at.Call.Call.Args[0]); fv == f {
+				return true
+			}
+		}
+	}
+	return false
+}
+
 // cntEvents: the events of the session's stream counter, whether they are spelled as calls of the dedicated one-line
 // helpers (streamCountIncr / streamCountDecr / streamCount) or as the atomic operation on the field itself.
 type cntEvents struct {
@@ -173,8 +187,35 @@ func definitelyNonNilError(v ssa.Value) bool {
 		}
 	case *ssa.Call:
 		n := calleeName(&x.Call)
-		return n == "errors.New" || n == "fmt.Errorf"
+		if n == "errors.New" || n == "fmt.Errorf" {
+			return true
+		}
 	case *ssa.MakeInterface:
+		return true
+	}
+	return definitelyNonNilPtr(v, 0)
+}
+
+// definitelyNonNilPtr: a freshly allocated object, or the result of a function every return of which hands back one
+// (a constructor such as makeStream).
+func definitelyNonNilPtr(v ssa.Value, depth int) bool {
+	switch x := v.(type) {
+	case *ssa.Alloc, *ssa.MakeMap, *ssa.MakeChan, *ssa.MakeClosure:
+		return true
+	case *ssa.Call:
+		g := x.Call.StaticCallee()
+		if g == nil || len(g.Blocks) == 0 || depth > 2 || g.Signature.Results().Len() != 1 {
+			return false
+		}
+		rets := returnsOf(g)
+		if len(rets) == 0 {
+			return false
+		}
+		for _, r := range rets {
+			if !definitelyNonNilPtr(resultValue(r, 0), depth+1) {
+				return false
+			}
+		}
 		return true
 	}
 	return false
